@@ -16,6 +16,53 @@
 #include <rime/dict/user_dictionary.h>
 #include <rime/gear/memory.h>
 #include <rime/gear/translator_commons.h>
+#include <rime/verif_hooks.h>
+
+#ifdef RIME_VERIF_HOOKS
+#include <typeinfo>
+#include <rime/dict/table.h>
+namespace rime {
+namespace verif {
+static string ud(const the<UserDictionary>& u) {
+  return ptr(u.get()) + "\t" + u->name();
+}
+// "<hex text> <hex custom_code> <syllable,syllable,...>" of a dict entry
+static string entry_repr(const DictEntry& e, Dictionary* dict) {
+  string r = hex(e.text) + " " + hex(e.custom_code) + " ";
+  if (e.code.empty())
+    r += "-";
+  for (size_t i = 0; i < e.code.size(); ++i) {
+    string syllable = dict && dict->primary_table()
+                          ? dict->primary_table()->GetSyllableById(e.code[i])
+                          : string();
+    r += (i ? "," : "") + hex(syllable);
+  }
+  return r;
+}
+// the composition as Memory::OnCommit reads it, one group per segment
+static string commit_repr(Context* ctx, Memory* memory) {
+  string r;
+  for (auto& seg : ctx->composition()) {
+    auto phrase =
+        As<Phrase>(Candidate::GetGenuineCandidate(seg.GetSelectedCandidate()));
+    bool recognized = Language::intelligible(phrase, memory);
+    r += string("\tS ") + (recognized ? "1" : "0") + " " +
+         (seg.status >= Segment::kConfirmed ? "1" : "0");
+    if (!recognized)
+      continue;
+    r += " " + entry_repr(phrase->entry(), memory->dict());
+    if (auto sentence = As<Sentence>(phrase)) {
+      for (const DictEntry& e : sentence->components())
+        r += " | " + entry_repr(e, memory->dict());
+    } else {
+      r += " | " + entry_repr(phrase->entry(), memory->dict());
+    }
+  }
+  return r;
+}
+}  // namespace verif
+}  // namespace rime
+#endif
 
 namespace rime {
 
@@ -87,20 +134,37 @@ Memory::~Memory() {
 }
 
 bool Memory::StartSession() {
+#ifdef RIME_VERIF_HOOKS
+  if (user_dict_ && verif::depth() == 0)
+    verif::event("start\t" + verif::ud(user_dict_));
+#endif
   return user_dict_ && user_dict_->NewTransaction();
 }
 
 bool Memory::FinishSession() {
+#ifdef RIME_VERIF_HOOKS
+  if (user_dict_ && verif::depth() == 0)
+    verif::event("finish\t" + verif::ud(user_dict_));
+#endif
   return user_dict_ && user_dict_->CommitPendingTransaction();
 }
 
 bool Memory::DiscardSession() {
+#ifdef RIME_VERIF_HOOKS
+  if (user_dict_ && verif::depth() == 0)
+    verif::event("discard\t" + verif::ud(user_dict_));
+#endif
   return user_dict_ && user_dict_->RevertRecentTransaction();
 }
 
 void Memory::OnCommit(Context* ctx) {
   if (!user_dict_ || user_dict_->readonly())
     return;
+#ifdef RIME_VERIF_HOOKS
+  verif::Event verif_ev(
+      "commit\t" + verif::ud(user_dict_) + "\t" + typeid(*this).name() + "\t" +
+      std::to_string(time(NULL)) + verif::commit_repr(ctx, this));
+#endif
   StartSession();
   CommitEntry commit_entry(this);
   for (auto& seg : ctx->composition()) {
@@ -124,6 +188,10 @@ void Memory::OnDeleteEntry(Context* ctx) {
       As<Phrase>(Candidate::GetGenuineCandidate(ctx->GetSelectedCandidate()));
   if (Language::intelligible(phrase, this)) {
     const DictEntry& entry(phrase->entry());
+#ifdef RIME_VERIF_HOOKS
+    verif::event("delete\t" + verif::ud(user_dict_) + "\t" +
+                 verif::entry_repr(entry, dict_.get()));
+#endif
     LOG(INFO) << "deleting entry: '" << entry.text << "'.";
     user_dict_->UpdateEntry(entry, -1);  // mark as deleted in user dict
     ctx->RefreshNonConfirmedComposition();
@@ -133,6 +201,12 @@ void Memory::OnDeleteEntry(Context* ctx) {
 void Memory::OnUnhandledKey(Context* ctx, const KeyEvent& key) {
   if (!user_dict_ || user_dict_->readonly())
     return;
+#ifdef RIME_VERIF_HOOKS
+  verif::Event verif_ev("key\t" + verif::ud(user_dict_) + "\t" +
+                        ((key.modifier() & ~kShiftMask) == 0 ? "1" : "0") +
+                        "\t" + (key.keycode() == XK_BackSpace ? "1" : "0") +
+                        "\t" + std::to_string(time(NULL)));
+#endif
   if ((key.modifier() & ~kShiftMask) == 0) {
     if (key.keycode() == XK_BackSpace && DiscardSession()) {
       return;  // forget about last commit
